@@ -188,13 +188,19 @@ def fp(x):
         return ("dict",) + tuple((_kfp(k), fp(v)) for k, v in x.items())
     if isinstance(x, optional):
         return ("optional", _kfp(x.key))
-    return (type(x).__name__, repr(x))
+    return (type(x).__name__, _leaf_repr(x))
+
+
+def _leaf_repr(x):
+    if type(x) is int and x.bit_length() > 14000:
+        return hex(x)          # decimal conversion of such an int raises ValueError
+    return repr(x)
 
 
 def _kfp(k):
     if k is E:
         return "<...>"
-    return (type(k).__name__, repr(k))
+    return (type(k).__name__, _leaf_repr(k))
 
 
 def fp_unordered(x):
